@@ -19,3 +19,6 @@ import MicroHttp.Props.C12Srv
 #print axioms MicroHttp.C12Srv.flush_keeps
 #print axioms MicroHttp.C12Srv.output_side_keeps_inputs
 #print axioms MicroHttp.C12Srv.pending_descriptors_survive_output
+#print axioms MicroHttp.Tables.conn_fields
+#print axioms MicroHttp.Tables.reset_block
+#print axioms MicroHttp.Tables.request_fields
